@@ -499,6 +499,37 @@ def case_union(ctx, rng):
             ctx.violation("union", sig, dict(members=[m.skel for m in members], value=v, members_accepting=which, union_outcome=outs[0].brief()))
 
 
+def case_two_step(ctx, rng):
+    """a value built in two steps on one command line (a list and an append to it, a mapping and an item set in it) under a
+    Union of sibling containers: the final value conforms to the hint and acceptance does not depend on the member order"""
+    scen = rng.choice([
+        ([G.list_t(G.INT), G.list_t(G.STR)], ['--k=["a"]', "--k+=1"]),
+        ([G.list_t(G.INT), G.list_t(G.FLOAT)], ["--k=[1.5]", "--k+=2"]),
+        ([G.list_t(G.INT), G.list_t(G.STR)], ["--k=[1, 2]", "--k+=x"]),
+        ([G.list_t(G.FLOAT), G.list_t(G.BOOL)], ["--k=[true]", "--k+=false"]),
+        ([G.dict_t(G.INT), G.dict_t(G.STR)], ['--k={"a": "1", "z": "s"}', "--k.b=t"]),
+        ([G.dict_t(G.INT), G.dict_t(G.STR)], ['--k={"a": 1}', "--k.b=2"]),
+        ([G.dict_t(G.FLOAT), G.dict_t(G.STR)], ['--k={"a": "1.5", "z": "s"}', "--k.z=t"]),
+        ([G.dict_t(G.BOOL), G.dict_t(G.INT)], ['--k={"a": 1}', "--k.b=true"]),
+    ])
+    members, argv = scen
+    outs = []
+    for perm in itertools.permutations(members):
+        u = G.union_t(list(perm))
+        o = call(parser_for(u).parse_args, list(argv))
+        outs.append((u, o))
+        note(ctx, u, o)
+        check_a(ctx, u, o, "argv-two-steps", argv)
+    flush_contract(ctx, dict(members=[m.skel for m in members], argv=argv))
+    ctx.count("mon.d.two_step_values")
+    ctx.evaluation(("two-step", tuple(m.skel for m in members), tuple(argv)))
+    acc = [o.accepted for _, o in outs if o.accepted or o.rejected]
+    if len(set(acc)) > 1:
+        ua = next(u for u, o in outs if o.accepted)
+        ur = next((u, o) for u, o in outs if o.rejected)
+        ctx.violation("union", f"d/order-dependent/argv-two-steps/{members[0].kind}/rejecting-order-starts-with-{ur[0].children[0].skel}", dict(members=[m.skel for m in members], argv=argv, accepting=ua.skel, rejecting=ur[0].skel, error=ur[1].brief()))
+
+
 def value_class(v, channel):
     if channel == "argv" or isinstance(v, str):
         import yaml
@@ -519,7 +550,9 @@ def run_shard(ctx):
         which = i % 4
         if ctx.replay is not None:
             which = ctx.replay["case"] % 4
-        if which in (0, 1):
+        if i % 16 == 5:
+            case_two_step(ctx, rng)
+        elif which in (0, 1):
             case_basic(ctx, rng)
         elif which == 2:
             case_container(ctx, rng)
